@@ -381,17 +381,36 @@ def indexer (r : Obj) (args : VL) : R Obj :=
     if hashable k then .ok (.val ((Seq.dGet d k).getD dflt)) else .error .type
   | _, _ => .error .noFunction
 
-/-- `x.name` for one element of a collection -/
-def memberV (name : Name) (x : Value) : R Value :=
-  match x with
+mutual
+/-- `x.name` for one element of a collection: one more `#operator_.` call, dispatched on the kind of THIS
+    element (`collection_attribution` calls its `Delegate('#operator_.')` per element) - a dictionary gives
+    its entry, an element that is a collection itself gives the (lazy) projection of ITS elements, whatever
+    kinds its neighbours are of; that `map` object is stored as data into the outer projection, so it must
+    not carry an exception (`toV`). -/
+def memberV (name : Name) : Value → R Value
   | .dict d => match Seq.dGet d (.str name) with | some v => .ok v | none => .error .key
-  | .tuple _ | .list _ | .set _ | .iter _ => .error .outOfDomain   -- a nested lazy projection
+  | .tuple l | .list l | .iter l => do let s ← memberVL name l; toV (.lazy s.1 s.2)
+  | .set _ => .error .outOfDomain
   | _ => .error .unknownFunction                                  -- `#property#name`
+/-- `map(lambda t: operator(t, name), l)` (= `mapL (memberV name) l none`, see `memberVL_eq`) -/
+def memberVL (name : Name) : List Value → R (VL × Option Err)
+  | [] => .ok ([], none)
+  | x :: xs => do
+    match ← capture (memberV name x) with
+    | .error er => pure ([], some er)
+    | .ok v => let r ← memberVL name xs; pure (v :: r.1, r.2)
+end
+
+theorem memberVL_eq (name : Name) : ∀ l : List Value, memberVL name l = mapL (memberV name) l none
+  | [] => by rw [memberVL]; rfl
+  | x :: xs => by
+    rw [memberVL, mapL, memberVL_eq name xs]
 
 /-- `receiver.name`: dict key, or the projection of every element of a collection -/
 def memberOf (r : Obj) (name : Name) : R Obj :=
   match r with
   | .val (.dict d) => match Seq.dGet d (.str name) with | some v => .ok (.val v) | none => .error .key
+  | .val (.set _) => .error .outOfDomain
   | r =>
     match toIter r with
     | some (items, err) => do let s ← mapL (memberV name) items err; pure (.lazy s.1 s.2)
@@ -822,6 +841,32 @@ def finalise (o : Obj) : R Final :=
 /-- `engine(text).evaluate(data=doc)`: `$` bound in the context the host passes in -/
 def run (fuel : Nat) (doc : Value) (e : Expr) : R Final := do
   let o ← eval fuel [{ vars := [(['$', '1'], doc)] }] e
+  finalise o
+
+/-! ## how the data enters: the host's own context chain
+
+A host need not call `evaluate(data=doc, context=<child of the library context>)`.  It may bind the
+document with `yaql.create_context(data=doc)` - then `$` lives in the ROOT of the chain, below the
+layers of the standard library -, hand a context that already holds variables to
+`yaql.create_context(context=..)` (they live below the library too), stack contexts with variables
+on top of the library context, and bind `$` itself in any of them.  The library layers bind no
+variable (`Props.C04.empty_frame_invisible`: such frames cannot be observed), so the chain the
+program runs in is: the host's layers from the root upwards, with the frame that binds `$` somewhere
+among them. -/
+
+/-- one context of the host: `ctx[k] = v` for each pair -/
+def hostFrame (kvs : List (Name × Value)) : Frame := { vars := bindNamed [] kvs }
+
+/-- layers given from the ROOT upwards -> the chain (head = the top context) -/
+def hostFrames (layers : List (List (Name × Value))) : Ctx := (layers.map hostFrame).reverse
+
+/-- the chain with `$` bound above the first `at` layers (`at = 0`: `create_context(data=doc)`;
+    `at = layers.length`: `evaluate(data=doc, context=top)`) -/
+def hostCtx (layers : List (List (Name × Value))) (at_ : Nat) (doc : Value) : Ctx :=
+  hostFrames (layers.drop at_) ++ { vars := [(['$', '1'], doc)] } :: hostFrames (layers.take at_)
+
+def runHost (fuel : Nat) (layers : List (List (Name × Value))) (at_ : Nat) (doc : Value) (e : Expr) : R Final := do
+  let o ← eval fuel (hostCtx layers at_ doc) e
   finalise o
 
 end Yaql.Eval
